@@ -64,7 +64,7 @@ def floors(tier):
     k = 1 if tier == "quick" else 20
     f = {"runs": 400 * k, "decided:occupancy_events": 50000 * k, "decided:end_notifications": 3000 * k,
          "decided:result_deliveries": 8000 * k, "runs:sjwd_false": 20 * k, "runs:with_failure": 40 * k,
-         "runs:proc_backend": 80 * k}
+         "runs:proc_backend": 80 * k, "runs:with_external_stop": 15 * k, "external_stops_notified": 15 * k}
     for kd in KINDS:
         f[f"kind:{kd}:runs"] = 20 * k
         if kd.startswith("fifo") or kd == "median":
@@ -109,6 +109,10 @@ def expand(spec):
             p["plan"]["burst"] = 1  # see c02.py: workers must not run ahead of the level they are paused at
         if kind == "pbt":
             p["delete_checkpoints"] = False  # PBT + checkpoint deletion is C20's subject (warm start from a deleted checkpoint)
+        if rng.random() < 0.2 and kind != "dehb":
+            # trials stopped from outside the scheduler (the tuner must report them with on_trial_error),
+            # also in a run that follows a pause and resume
+            p["plan"]["ext_stop"] = {f"{rng.randint(0, 10)}:{rng.choice([0, 0, 1, 1])}": rng.randint(0, 3) for _ in range(rng.randint(1, 3))}
         if rng.random() < 0.2 and kind != "dehb":
             p["plan"]["fail"] = {f"{rng.randint(0, 10)}:{rng.choice([0, 0, 1])}": rng.randint(0, 3) for _ in range(rng.randint(1, 3))}
     if kind == "moasha":
@@ -335,7 +339,7 @@ def check_trace(o, events, n_workers, sjwd, kind, exc=None, busy_probe=None):
                 V("end_notification", f"on_trial_error_for_status_{batch_status.get(tid)}", trial=tid)
             if state.get(tid) == "running":
                 state[tid] = "failed"
-            o.count("failures_notified")
+            o.count("failures_notified" if batch_status.get(tid) == "failed" else "external_stops_notified")
             sig.append(("F", tid))
         elif k == "b.busy_trial_ids.ret":
             busy_base = len(pl["ret"])
@@ -389,6 +393,8 @@ def run_case(spec):
         r = simrun.ProcRun(p, spec["seed"], extra_fn=extra_fn)
         r.run()
         had_fail = bool((p.get("plan") or {}).get("fail"))
+        if any(e[1] == "w.external_stop" for e in r.rec.events):
+            o.count("runs:with_external_stop")
         r.cleanup()
     if had_fail:
         o.count("runs:with_failure")
